@@ -118,14 +118,27 @@ def run(ck):
     else:
         for seq in itertools.product(alphabet, repeat=2):
             jobs.append((3, list(seq)))
+    # reads whose byte size is an exact multiple of the internal block sizes (64 KiB, 1 MiB): 2**16 and 2**15 points at once,
+    # from the start and after a seek, on a file with a few hundred points more than that and EVLRs behind them
+    big = 2 ** 16 + 300
+    for ops in ([("r", 2 ** 16), ("r", 50), ("r", -1)], [("n", 2 ** 15), ("n", 2 ** 15), ("n", 2 ** 15), ("n", 2 ** 15)],
+                [("s", 25, 0), ("r", 2 ** 16), ("r", 7)], [("r", 2 ** 14), ("r", 2 ** 14), ("s", 0, 0), ("r", 3 * 2 ** 14), ("a",)]):
+        jobs.append((big, ops))
     lines, meta = [], []
     files = {}
     for count, ops in jobs:
-        key = (count, ck.rng.randrange(4))
+        key = (count, 0) if count > 10000 else (count, ck.rng.randrange(4))
         if key not in files:
-            minor, fmt = ck.rng.choice(fio.PAIRS)
-            evlrs = fio.rand_vlrs(ck.rng, True) if minor >= 4 else None
-            las = fio.make_las(ck.rng, minor, fmt, count, evlrs=evlrs)
+            if count > 10000:
+                import laspy as _l
+                minor, fmt = ck.rng.choice([(2, 0), (4, 6), (2, 1)])
+                evlrs = [("verif", 1, "after the points", bytes(range(200)))] if minor >= 4 else None
+                rawb = np.random.RandomState(ck.rng.randrange(2 ** 31)).bytes(count * _l.PointFormat(fmt).size)
+                las = fio.make_las(ck.rng, minor, fmt, count, raw=rawb, evlrs=evlrs)
+            else:
+                minor, fmt = ck.rng.choice(fio.PAIRS)
+                evlrs = fio.rand_vlrs(ck.rng, True) if minor >= 4 else None
+                las = fio.make_las(ck.rng, minor, fmt, count, evlrs=evlrs)
             buf = io.BytesIO()
             las.write(buf)
             files[key] = (buf.getvalue(), las.points.array.tobytes(), las.header.point_format.size, minor, fmt)
